@@ -105,6 +105,20 @@ def observe(recipe, backend):
                 pa = PARENT.get(t)
                 if m == ["ok", True] and pa is not None and v["mem"].get(pa) == ["ok", False]:
                     add("C16", "not-nested:%s<%s" % (t, pa), "array is in %s but not in its parent %s" % (t, pa))
+            # ... and the containing types form one chain: of any two, one is an identity ancestor of the other
+            def anc(t):
+                out = []
+                while t is not None:
+                    out.append(t)
+                    t = PARENT.get(t)
+                return out
+            inn = sorted(t for t, m in v["mem"].items() if m == ["ok", True])
+            for i, a in enumerate(inn):
+                for b2 in inn[i + 1:]:
+                    if a not in anc(b2) and b2 not in anc(a):
+                        add("C16", "not-a-chain:%s|%s" % (a, b2), "array is in %s and in %s, neither of which is an ancestor of the other" % (a, b2))
+            if set(inn) != set(p):
+                add("C16", "membership-vs-path", "types containing the array %s differ from the detection path %s" % (inn, p))
     # C02 (numpy only: the property excludes Python lists): at every type that contains the sequence, at most one
     # outgoing relation (identity child's membership test or inference relation's test) accepts it
     if backend == "numpy":
